@@ -159,10 +159,11 @@ type runner struct {
 	curGen    int          // generation of the running config (-1: none)
 	swapped   bool
 	firstP    map[int]bool
-	linger    [nUnix]bool // a dropped unix socket was seen accepting without answering; not probed again until rebound
-	results   []string    // per load: ok err same stale
-	poisoned  bool        // a config that should have been accepted was rejected; the scenario stops there
-	cut       int         // number of events that belong to the scenario proper
+	injected  map[int]bool // loads whose injected late failure fired
+	linger    [nUnix]bool  // a dropped unix socket was seen accepting without answering; not probed again until rebound
+	results   []string     // per load: ok err same stale
+	poisoned  bool         // a config that should have been accepted was rejected; the scenario stops there
+	cut       int          // number of events that belong to the scenario proper
 	listeners []*probeListener
 
 	tokMu  sync.Mutex
@@ -260,6 +261,9 @@ func (r *runner) closeWindow() {
 func (r *runner) mark(kind byte, k int) {
 	if kind == 'W' || kind == 'J' {
 		r.openWindow()
+	}
+	if kind == 'J' {
+		r.injected[k] = true
 	}
 	ev := &event{kind: kind, gen: k, load: r.loading}
 	r.evMu.Lock()
